@@ -258,8 +258,10 @@ def check_cases(ctx, cases, stats, cli_every=0):
             if lst == expected:
                 continue
             diff = sorted(set(lst) ^ set(expected))
-            # the known class: fast path, Unicode \B / start-half look-behind, line starting with continuation bytes
-            if name in ("slice", "reader") and has_look(v[5], (9, 16)) and all(
+            # the known class D17: fast path (slice, reader, rg — everything but the passthru run), a Unicode \B /
+            # start-half assertion (incl. the -w wrapper) in the final HIR, and every differing line starts with UTF-8
+            # continuation bytes (decode_last can cross the line start only over a prefix of <= 3 continuation bytes)
+            if name != "passthru" and has_look(v[5], (9, 16)) and all(
                     0x80 <= (sl[d - 1][0][:1] or b"\x00")[0] <= 0xbf for d in diff if d - 1 < len(sl)):
                 ctx.known(KNOWN_D17, "pats=%r flags=%r input=%r: %s reports %s, per-line semantics %s"
                           % (c["pats"], rep["flags"], c["input"], name, lst, expected))
